@@ -242,7 +242,11 @@ func c08Compare(w *wWorld) []c08Div {
 				c08Skip = true
 			}
 			if lt.DelID != trow.del && lt.Cat != types.TopicCatSys {
-				add(name+"|"+who+"|"+sigField("diverged:delID:"+catName(lt.Cat)), kit.V("diverged:delID:"+catName(lt.Cat), "topic %s: cached delete id %d, stored %d", name, lt.DelID, trow.del))
+				dir := "cache-behind"
+				if lt.DelID > trow.del {
+					dir = "cache-ahead"
+				}
+				add(name+"|"+who+"|"+sigField("diverged:delID:"+dir+":"+catName(lt.Cat)), kit.V("diverged:delID:"+dir+":"+catName(lt.Cat), "topic %s: cached delete id %d, stored %d", name, lt.DelID, trow.del))
 				c08Skip = true
 			}
 			if lt.Cat == types.TopicCatSys && lt.DelID != trow.del {
@@ -553,8 +557,9 @@ func (o *c08Obs) After(w *wWorld, st *wStep) *kit.Viol {
 		}
 		v := d.v
 		v.Msg += fmt.Sprintf(" (after step %d: %s %s)", st.I, st.Op.K, st.Req)
+		offlineSet := st.Op.K == "set" && !st.Skipped && w.sessOK(st.Sess) && w.sess[st.Sess].s.getSub(st.Route) == nil
 		switch {
-		case strings.HasSuffix(v.Sig, ":chan-reader"):
+		case strings.HasSuffix(v.Sig, ":chan-reader") && !offlineSet && !st.Fired:
 			v.Sig = "chan-reader:" + v.Sig
 		case st.Fired:
 			// how the request was answered is part of the root cause: a refused request whose first
